@@ -42,19 +42,14 @@ ToyDisk == [z \in {"ZN", "ZS", "ZD", "ZF", "ZU", "ZL", "ZJ", "ZP", "ZW"} |->
 ToyZones == DOMAIN ToyDisk
 
 Ticks(d0, d1) == {P(d, s) : d \in d0..d1, s \in 0..(DaySec - 1)}
-\* lookup window: every tick from before the first toy transition to May 1970, and from October 1970 to April 1971
-\* (all table transitions and the first rule transitions of every toy zone)
-LookupW == Ticks(-2, 125) \cup Ticks(272, 462)
-OffsetQueries == {[zone |-> z, kind |-> "offset", at |-> t] : z \in ToyZones, t \in LookupW}
-\* local queries: every wall-clock tick within a day of a table transition or of a rule transition of 1970/71
-Centres == {1, 3, 5, 10, 20, 40, 93, 100, 310, 276, 294, 297, 300, 424, 437, 448, 451, 458}
-LocalW == UNION {Ticks(c - 1, c + 1) : c \in Centres}
-LocalQueries == {[zone |-> z, kind |-> "local", at |-> t] : z \in ToyZones, t \in LocalW}
-\* one query per (zone, year): rule laws over every tick of that year
-RuleYears == {1971, 1972, 2100, 9999}
-RuleZones == {z \in ToyZones : ToyDisk[z].footer.kind = "rule"}
-YearQueries == {[zone |-> z, kind |-> "offset", at |-> P(DaysFromCivil(y, 1, 1), 0)] : z \in ToyZones, y \in RuleYears}
 ManyYears == {1, 1600, 1900, 2400, 9999} \cup 1969..2110
+
+\* quick-tier windows (the thorough ones, supersets, are in MC_TzifT)
+QLookupW == Ticks(-2, 45) \cup Ticks(90, 104) \cup Ticks(290, 314) \cup Ticks(420, 460)
+QOffsetQueries == {[zone |-> z, kind |-> "offset", at |-> t] : z \in ToyZones, t \in QLookupW}
+QCentres == {3, 10, 20, 40, 93, 100, 310, 297, 300, 437, 448}
+QLocalQueries == {[zone |-> z, kind |-> "local", at |-> t] : z \in ToyZones, t \in UNION {Ticks(c - 1, c + 1) : c \in QCentres}}
+QYearQueries == {[zone |-> z, kind |-> "offset", at |-> P(DaysFromCivil(y, 1, 1), 0)] : z \in ToyZones, y \in {1972, 2100}}
 
 (* ---- laws as invariants over the last transition (depth-1 exploration) ---- *)
 IsQ == last.op = "query"
@@ -81,16 +76,23 @@ ASSUME KindsSeen = {"gap", "unique", "overlap"}
 \* per zone (and year): table laws, and for rule footers the rule laws over every tick of the year
 YearTicks(y) == Ticks(DaysFromCivil(y, 1, 1), DaysFromCivil(y, 12, 31))
 LawTable == IsQ => ChangesAtTransitions(LZ) /\ WellFormed(LZ) /\ GapOverlapRule(LZ)
-RuleLaws(F, y) ==
-  /\ \A yy \in ManyYears : RuleDayRight(F.start, yy) /\ RuleDayRight(F.end, yy) /\ RuleAlternates(F, yy)
-  /\ RuleReadingsAgree(F, YearTicks(y))
-  \* the offset changes exactly at the rule transitions that fall in the year (an end that coincides with
-  \* the next start - permanent DST written as a rule - is no change)
-  /\ LET evs == RuleEvents(F, y)
-         real == {e.at : e \in {e \in evs : ~\E f \in evs : Eq(f.at, e.at) /\ f.toDst # e.toDst}}
-     IN {Shift(u, 1) : u \in {u \in YearTicks(y) : FooterOff(F, u) # FooterOff(F, Shift(u, 1))}}
-          = {p \in real : Shift(p, -1) \in YearTicks(y)}
-LawRules == (IsQ /\ LZ.footer.kind = "rule") => RuleLaws(LZ.footer, YearOf(LT))
+\* quick tier: only the ticks within three days of a rule transition of the year, and the first and last two days
+NearTicks(F, y) == LET dd == {e.at.d : e \in RuleEvents(F, y)} \cup {DaysFromCivil(y, 1, 2), DaysFromCivil(y, 12, 30)}
+                   IN {t \in UNION {Ticks(d - 3, d + 3) : d \in dd} : YearOf(t) = y}
+RuleLaws(F, y, ticks) ==
+  LET evs == RuleEvents(F, y)                       \* YearOf(t) = y for every tick of the year
+      dstIn == [u \in ticks \cup {Shift(u, 1) : u \in ticks} |-> InDst(F, u)]
+      past(t) == {e \in evs : Le(e.at, t)}
+      real == {e.at : e \in {e \in evs : ~\E f \in evs : Eq(f.at, e.at) /\ f.toDst # e.toDst}}
+  IN /\ F.std # F.dst
+     /\ \A yy \in ManyYears : RuleDayRight(F.start, yy) /\ RuleDayRight(F.end, yy) /\ RuleAlternates(F, yy)
+     \* the interval reading of the rule = "the most recent rule transition decides" (Tzif!RuleReadingsAgree, events hoisted)
+     /\ \A t \in ticks : dstIn[t] = (past(t) # {} /\ MaxEvent(past(t)).toDst)
+     \* the offset changes exactly at the rule transitions that fall in the year (an end that coincides with
+     \* the next start - permanent DST written as a rule - is no change)
+     /\ {Shift(u, 1) : u \in {u \in ticks : dstIn[u] # dstIn[Shift(u, 1)]}} = {p \in real : Shift(p, -1) \in ticks}
+LawRules == (IsQ /\ LZ.footer.kind = "rule") => RuleLaws(LZ.footer, YearOf(LT), YearTicks(YearOf(LT)))
+LawRulesNear == (IsQ /\ LZ.footer.kind = "rule") => RuleLaws(LZ.footer, YearOf(LT), NearTicks(LZ.footer, YearOf(LT)))
 
 (* ---- provider instance: all orders of a 3-zone x 3-query workload plus failing queries ---- *)
 ProvDisk == [z \in {"ZN", "ZS", "ZL"} |-> ToyDisk[z]]
